@@ -187,6 +187,9 @@ func nativeModel(name string, f interface{}) modelFn {
 		for i, a := range args {
 			v, ok := in.toNative(a, ft.In(i))
 			if !ok {
+				if name == "strconv.FormatFloat" && in.errFmt == 0 {
+					panic(inconclusive("strconv.FormatFloat of a symbolic float (out of reach)"))
+				}
 				if in.errFmt > 0 && abstractInErr[name] {
 					// building an error message: do not fork on the digits of a symbolic number
 					in.stubsHit["error-message text: symbolic numbers rendered as a placeholder"] = true
@@ -358,6 +361,74 @@ func init() {
 			return tFalse
 		}
 		return in.strEq(s.Slice(s.Len()-p.Len(), s.Len()), p)
+	}
+	// IndexAny / IndexRune / ContainsRune / ContainsAny with concrete ASCII needles over symbolic subjects
+	asciiNeedle := func(v Value) (string, bool) {
+		s := v.(Str)
+		if !s.IsConcrete() {
+			return "", false
+		}
+		c := s.Concrete()
+		for i := 0; i < len(c); i++ {
+			if c[i] >= 0x80 {
+				return "", false
+			}
+		}
+		return c, true
+	}
+	indexAny := func(in *Interp, s Str, chars string) int {
+		for i := 0; i < s.Len(); i++ {
+			c := tFalse
+			for j := 0; j < len(chars); j++ {
+				c = tOr(c, tEq(s.At(i), mkBV(8, uint64(chars[j]))))
+			}
+			if in.branch(c) {
+				return i
+			}
+		}
+		return -1
+	}
+	m["strings.IndexAny"] = func(in *Interp, fr *Frame, args []Value, call *ssa.CallCommon) Value {
+		s := args[0].(Str)
+		chars, ok := asciiNeedle(args[1])
+		if s.IsConcrete() || !ok {
+			return notHandled
+		}
+		return mkBV(64, uint64(int64(indexAny(in, s, chars))))
+	}
+	m["strings.ContainsAny"] = func(in *Interp, fr *Frame, args []Value, call *ssa.CallCommon) Value {
+		s := args[0].(Str)
+		chars, ok := asciiNeedle(args[1])
+		if s.IsConcrete() || !ok {
+			return notHandled
+		}
+		return mkBool(indexAny(in, s, chars) >= 0)
+	}
+	runeNeedle := func(v Value) (string, bool) {
+		t := v.(*Term)
+		if !t.IsConst() || t.val >= 0x80 {
+			return "", false
+		}
+		return string(rune(t.val)), true
+	}
+	m["strings.IndexRune"] = func(in *Interp, fr *Frame, args []Value, call *ssa.CallCommon) Value {
+		s := args[0].(Str)
+		c, ok := runeNeedle(args[1])
+		if s.IsConcrete() || !ok {
+			return notHandled
+		}
+		return mkBV(64, uint64(int64(indexAny(in, s, c))))
+	}
+	m["strings.ContainsRune"] = func(in *Interp, fr *Frame, args []Value, call *ssa.CallCommon) Value {
+		s := args[0].(Str)
+		c, ok := runeNeedle(args[1])
+		if s.IsConcrete() || !ok {
+			return notHandled
+		}
+		return mkBool(indexAny(in, s, c) >= 0)
+	}
+	m["strings.IndexByte"] = func(in *Interp, fr *Frame, args []Value, call *ssa.CallCommon) Value {
+		return in.indexByte(args[0].(Str), args[1].(*Term))
 	}
 	m["internal/stringslite.HasPrefix"] = m["strings.HasPrefix"]
 	m["internal/stringslite.HasSuffix"] = m["strings.HasSuffix"]
